@@ -1109,6 +1109,18 @@ class FnTr:
             return Val(f"{v.atom()}.length", "nat")
         if name == "wrapping_neg":
             return Val(f"-{v.atom()}", v.ty)
+        if name in ("max", "min") and len(args) == 1 and (v.ty in INT or v.ty == "nat"):
+            # Ord::max / Ord::min on integers (a clamp such as `.max(1)`): unsigned order on BitVec / Nat, signed order for iN
+            b = self.coerce(self.expr(args[0], v.ty), v.ty)
+            if v.ty in INT and v.ty.startswith("i"):
+                lt = f"{v.atom()}.slt {b.atom()}"
+            elif v.ty == "nat":
+                lt = f"decide ({v.atom()} < {b.atom()})"
+            else:
+                lt = f"{v.atom()}.ult {b.atom()}"
+            if name == "max":
+                return Val(f"(if {lt} then {b.atom()} else {v.atom()})", v.ty)
+            return Val(f"(if {lt} then {v.atom()} else {b.atom()})", v.ty)
         if name == "count_ones":
             raise Unsupported("count_ones")
         raise Unsupported(f"method .{name}()")
